@@ -55,6 +55,17 @@ pub fn constant_pool() -> Vec<V> {
             p.push(V::Bytes(b));
         }
     }
+    // same length, same ends, different middle
+    for l in [66usize, 100, 300] {
+        for mid in ['a', 'b'] {
+            let mut t: Vec<char> = vec!['x'; l];
+            t[l / 2] = mid;
+            p.push(V::Text(t));
+            let mut b: Vec<u8> = vec![120; l];
+            b[l / 2] = mid as u8;
+            p.push(V::Bytes(b));
+        }
+    }
     for l in [64usize, 256] {
         for first in ['a', 'b'] {
             let mut t: Vec<char> = vec![first];
@@ -63,6 +74,22 @@ pub fn constant_pool() -> Vec<V> {
         }
     }
     p
+}
+
+pub const LARGE_KINDS: &[&str] = &["integer", "float", "text", "bytes", "symbol", "mixed"];
+pub const LARGE_SIZES: &[usize] = &[100, 1000, 1500, 5000, 20000, 70000];
+pub const LARGE_SIZES_QUICK: &[usize] = &[100, 1000, 1500, 5000];
+
+/// the k-th distinct constant of a kind
+pub fn large_value(kind: &str, k: usize) -> V {
+    let kind = if kind == "mixed" { ["integer", "float", "text", "bytes", "symbol"][k % 5] } else { kind };
+    match kind {
+        "integer" => V::Int(k as i32 - 50),
+        "float" => V::Float(k as f64 + 0.5),
+        "text" => V::Text(format!("t{}é", k).chars().collect()),
+        "bytes" => V::Bytes(format!("b{}", k).into_bytes()),
+        _ => V::Sym(1_000_000 + k as u64 * 7919),
+    }
 }
 
 pub fn configs() -> Vec<(usize, ReallocationStrategy, &'static str)> {
@@ -387,7 +414,7 @@ impl Check for C15Check {
          phase random: histories of 50..400 operations on SimpleGarnishData and on BasicGarnishData with default and with tape-chosen per-table settings. \
          Oracle: an abstract model of independent growable tables; after EVERY operation every address ever returned reads back (type and content through the getters) as in the model, the instruction and jump tables match index by index, registers match in order (frame markers accounted for), the current value and symbol names match; pops return what the model says. \
          On SimpleGarnishData additionally: adding a bit-identical constant again returns the same address, a different constant a different address. \
-         Phase constant-pairs: every ordered pair (A, B) of a pool of constants of every interned kind (numbers incl. the same value as integer and float, the same small number as number / char / byte / symbol / expression / external, types, texts and byte lists of lengths around 8..256 that differ only in their last or first item) added as A, B, A, B to a fresh object of either implementation: all four read back as added; on SimpleGarnishData equal constants share one address, different ones never do. Non-trivial = a history in which at least two different tables grew while others held data; distinct = distinct (history, configuration)."
+         Phase constant-pairs: every ordered pair (A, B) of a pool of constants of every interned kind (numbers incl. the same value as integer and float, the same small number as number / char / byte / symbol / expression / external, types, texts and byte lists of lengths around 8..256 that differ only in their last, first or middle item) added as A, B, A, B to a fresh object of either implementation: all four read back as added; on SimpleGarnishData equal constants share one address, different ones never do. Phase large-stores: 100 .. 5000 (thorough 70000) distinct constants of one kind (integers, floats, texts, byte lists, symbols) or a mix in one object, then every one of them added again forwards and backwards: on SimpleGarnishData each comes back at its first address and no two share one, on both implementations they read back as added. Non-trivial = a history in which at least two different tables grew while others held data; distinct = distinct (history, configuration)."
             .to_string()
     }
     fn assumptions(&self) -> Vec<String> {
@@ -404,6 +431,7 @@ impl Check for C15Check {
             Phase::exhaustive("longer-histories-tight-configs", 14u64.pow(h as u32 + 1) * 2).with_chunk(4096),
             Phase::random("random-long-histories", tier.pick(6_000, 150_000), 900).with_min_tape(120).with_chunk(64),
             Phase::exhaustive("constant-pairs", { let n = constant_pool().len() as u64; n * n }).with_chunk(128),
+            Phase::exhaustive("large-stores", (LARGE_KINDS.len() * tier.pick(LARGE_SIZES_QUICK.len(), LARGE_SIZES.len())) as u64).with_chunk(1).with_deadline_ms(60_000),
         ]
     }
     fn run(&self, tier: Tier, phase: usize, input: &Input, ctx: &mut CaseCtx) {
@@ -487,6 +515,81 @@ impl Check for C15Check {
                                 let r = readback(&d, *addr);
                                 if !same(&r, v) {
                                     ctx.fail(format!("value-changed:constant:{}", key), format!("Basic: address {} reads back {} {}", addr, r.type_name(), short(&r)));
+                                }
+                            }
+                        }
+                    }
+                }
+            }
+            (4, Input::Index(i)) => {
+                // many distinct constants of one kind (or a mix) in one object, then every one of them again
+                let kind = LARGE_KINDS[(*i as usize) % LARGE_KINDS.len()];
+                let n = LARGE_SIZES[(*i as usize) / LARGE_KINDS.len()];
+                ctx.render(|| format!("{} distinct {} constants, then each of them again (forwards, then backwards)", n, kind));
+                ctx.class("large-store");
+                ctx.nontrivial(fnv(format!("large{}", i).as_bytes()));
+                let values: Vec<V> = (0..n).map(|k| large_value(kind, k)).collect();
+                fn fill<D: GD>(d: &mut D, values: &[V]) -> Result<(Vec<usize>, Vec<usize>, Vec<usize>), String> {
+                    let mut first = vec![];
+                    for v in values {
+                        first.push(crate::model::value::build_value(d, v)?);
+                    }
+                    let mut again = vec![];
+                    for v in values {
+                        again.push(crate::model::value::build_value(d, v)?);
+                    }
+                    let mut back = vec![0; values.len()];
+                    for (k, v) in values.iter().enumerate().rev() {
+                        back[k] = crate::model::value::build_value(d, v)?;
+                    }
+                    Ok((first, again, back))
+                }
+                ctx.sub_evals += 2;
+                {
+                    let mut d = new_simple();
+                    match guard("store", || fill(&mut d, &values)) {
+                        Err(p) => ctx.fail(format!("store-panic@{}", p.loc), format!("Simple: {}", p.msg)),
+                        Ok(Err(e)) => ctx.fail(format!("constant-not-addable:Simple:large:{}", kind), e),
+                        Ok(Ok((first, again, back))) => {
+                            let mut seen = std::collections::HashMap::new();
+                            for (k, a) in first.iter().enumerate() {
+                                if let Some(other) = seen.insert(*a, k) {
+                                    ctx.fail(format!("interning:different-constants-share-an-address:large:{}", kind), format!("Simple: constants #{} and #{} of {} both live at {}", other, k, n, a));
+                                    break;
+                                }
+                            }
+                            for k in 0..values.len() {
+                                if first[k] != again[k] || first[k] != back[k] {
+                                    ctx.fail(
+                                        format!("interning:equal-constant-gets-new-address:large:{}", kind),
+                                        format!("Simple: constant #{} of {} ({}) first added at {}, added again at {} and {}", k, n, values[k], first[k], again[k], back[k]),
+                                    );
+                                    break;
+                                }
+                            }
+                            for k in (0..values.len()).step_by((values.len() / 257).max(1)) {
+                                let r = readback(&d, first[k]);
+                                if !same(&r, &values[k]) {
+                                    ctx.fail(format!("interning:constant-reads-back-as-another:large:{}", kind), format!("Simple: constant #{} of {} ({}) reads back {}", k, n, values[k], r));
+                                    break;
+                                }
+                            }
+                        }
+                    }
+                }
+                {
+                    let mut d = new_basic();
+                    match guard("store", || fill(&mut d, &values)) {
+                        Err(p) => ctx.fail(format!("store-panic@{}", p.loc), format!("Basic: {}", p.msg)),
+                        Ok(Err(e)) => ctx.fail(format!("constant-not-addable:Basic:large:{}", kind), e),
+                        Ok(Ok((first, again, back))) => {
+                            for k in (0..values.len()).step_by((values.len() / 257).max(1)) {
+                                for a in [first[k], again[k], back[k]] {
+                                    let r = readback(&d, a);
+                                    if !same(&r, &values[k]) {
+                                        ctx.fail(format!("value-changed:constant:large:{}", kind), format!("Basic: constant #{} of {} ({}) at {} reads back {}", k, n, values[k], a, r));
+                                        break;
+                                    }
                                 }
                             }
                         }
